@@ -117,6 +117,30 @@ DESC = {
                 "a subpath segment consisting only of dots (Go's cmd/...)"),
     "r4c16-4": ("C16", "'Already sorted, so append' fast path in decode_qualifiers that compares the raw input keys although the list is ordered by lower-cased keys.",
                 "an input in ascending byte order where an upper-case key precedes a key that sorts before its lower-cased form (?Distro=..&arch=..): the parsed value has unsorted (or duplicate) qualifiers and does not survive its own serialised form"),
+    "r5c12-1": ("C12", "derive(Clone) on Checksum became a manual impl whose 'allocation-reusing' clone_from overwrites or inserts the source's entries but never removes algorithms the target had and the source lacks.",
+                "a call sequence: target.clone_from(&source) where target already holds a name that source does not; probability 0 for fresh attempts (it also needed the hook wrapper to offer std's inherent methods, hook commit 15f5dd0)"),
+    "r5c12-2": ("C12", "TryFrom<Checksum> for SmallString validates and lower-cases hex in hash-map iteration order before sorting; the 'empty value, nothing to do' shortcut uses break for continue.",
+                "one entry with empty bytes, another with upper-case raw hex, and a hash order that puts the empty one first (k/(k+1) of the orders)"),
+    "r5c12-3": ("C12", "The text writer sorts a permutation of u8 indices: (0..len as u8).",
+                "256 or more entries: only n % 256 of them, chosen by hash order, are rendered"),
+    "r5c12-4": ("C12", "OccupiedEntry::remove / remove_entry use Vec::swap_remove, leaving the sorted qualifier list unsorted.",
+                "removing through the Entry API a qualifier that is neither last nor second-to-last before build(): the binary search for 'checksum' misses and a non-canonical checksum survives"),
+    "r5c14-1": ("C14", "The serde visitor parses v.trim() a second time when from_str(v) fails and v has leading or trailing whitespace.",
+                "the serde entry point, padded text, and a conversion that succeeds with a hook that fails on the first attempt (or a conversion that fails)"),
+    "r5c14-2": ("C14", "Same as r4c14-1, written independently: index-walking Qualifiers::retain.",
+                "two empty-valued qualifiers that are neighbours in sorted key order"),
+    "r5c14-3": ("C14", "build() reads a has_qualifiers flag before the hook; empty-value removal and checksum canonicalise-or-refuse run only if it was set.",
+                "a hook that inserts qualifiers and an input with no qualifier of its own"),
+    "r5c14-4": ("C14", "is_valid_package_type uses is_alphanumeric instead of is_ascii_alphanumeric.",
+                "a non-ASCII letter or digit in the type (Kelvin sign, full-width letters) plus a tolerant conversion"),
+    "r5c16-1": ("C16", "Display writes through a 64-byte coalescing adapter with an explicit finish() plus a flush-and-discard Drop; the subpath arm ends without finish().",
+                "a PURL with a subpath and a sink that fails on the last chunk: success is reported with a truncated string"),
+    "r5c16-2": ("C16", "GenericPurl gains a OnceLock text cache (ignored by Eq/Ord/Hash, copied by Clone); Display tees its output into it and stores the copy even when the write failed.",
+                "a sequence: the very first formatting of a value fails part-way, then every later serialize / to_string of that value returns the truncated prefix as success"),
+    "r5c16-3": ("C16", "Serialize hands the serializer a single-use draining Display (an iterator of encoded pieces in a RefCell).",
+                "a serializer that formats the value more than once (measure-then-write, overflow-and-retry): the second pass yields an empty string or only the tail"),
+    "r5c16-4": ("C16", "A one-piece fast path for PURLs of at most 128 bytes conflates 'did not fit' with 'the sink refused the write' and streams the whole PURL again after a failed write.",
+                "a transient sink error after partial acceptance: success is reported with the accepted prefix followed by the whole PURL"),
 }
 
 
@@ -136,6 +160,7 @@ def main():
     before2 = table(os.path.join(ROOT, "RESULTS-round2-before-strengthening.tsv"))
     before3 = table(os.path.join(ROOT, "RESULTS-round3-before-strengthening.tsv"))
     before4 = table(os.path.join(ROOT, "RESULTS-round4-before-strengthening.tsv"))
+    before5 = table(os.path.join(ROOT, "RESULTS-round5-before-strengthening.tsv"))
     for name, (prop, what, needs) in sorted(DESC.items()):
         d = os.path.join(ROOT, name)
         if not os.path.isdir(d):
@@ -146,10 +171,11 @@ def main():
         b2 = before2.get(name, {})
         b3 = before3.get(name, {})
         b4 = before4.get(name, {})
+        b5 = before5.get(name, {})
         meta = {
             "id": name,
             "property_broken": prop,
-            "origin": f"fresh sub-agent '{name.split('-')[0]}', change #{name.split('-')[1]}; it was given only the text of {prop} and a scratch worktree of /repo, nothing from /verif" + ("; round 2: it was also told which ideas round 1 had produced and asked for different ones" if name.startswith("r2") else "") + ("; round 3: it was also told which ideas rounds 1 and 2 had produced, and pointed at rarely exercised public API paths, call order, thresholds and continued use after a failure" if name.startswith("r3") else "") + ("; round 4: told the ideas of rounds 1-3 and asked to read the code paths end to end for small-effect defects" if name.startswith("r4") else ""),
+            "origin": f"fresh sub-agent '{name.split('-')[0]}', change #{name.split('-')[1]}; it was given only the text of {prop} and a scratch worktree of /repo, nothing from /verif" + ("; round 2: it was also told which ideas round 1 had produced and asked for different ones" if name.startswith("r2") else "") + ("; round 3: it was also told which ideas rounds 1 and 2 had produced, and pointed at rarely exercised public API paths, call order, thresholds and continued use after a failure" if name.startswith("r3") else "") + ("; round 4: told the ideas of rounds 1-3 and asked to read the code paths end to end for small-effect defects" if name.startswith("r4") else "") + ("; round 5: told the ideas of rounds 1-4, with a focus per property: hash order / entry count / call sequences (C12), combinations of conversion, hook and input shape (C14), misbehaving sinks and sources only (C16)" if name.startswith("r5") else ""),
             "change": what,
             "needs_in_order_to_manifest": needs,
             "files": {"patch": "patch.diff", "demonstration": "demo.rs (drop into purl/tests/)", "author_notes": "notes.md"},
@@ -177,6 +203,11 @@ def main():
                 "verdict": r.get("verdict"),
             },
         }
+        if b5:
+            meta["checks_before_they_were_strengthened_for_round_5"] = {
+                "note": "result with the checks at commit acf2988 (the version that met round 5); exit2 = the change did not build under the hook wrapper of that time",
+                "C12": b5.get("C12"), "C14": b5.get("C14"), "C16": b5.get("C16"), "verdict": b5.get("verdict"),
+            }
         if b4:
             meta["checks_when_round_4_arrived"] = {
                 "note": "result with the checks at commit c0ffee (the version that met round 4; nothing was missed, a few own-property lanes were added afterwards)".replace("c0ffee", "4cb66c9"),
